@@ -55,6 +55,24 @@ Theorem C02_control_rrt_paths_replay :
   | None => length tree = length starts
   end.
 Proof. exact crrt_solve_spec. Qed.
+(* control::RRT with intermediate states (crrti_solve: the chosen control is propagated again step by step and every valid state
+   becomes a motion of one step, the chain ending at the first state that satisfies the goal): every motion of the tree and every
+   segment of a reported path is exactly one propagation step of its control onto a valid state *)
+Theorem C02_control_rrt_intermediate_states_paths_replay :
+  forall (St C : Type) (stepf : C -> St -> St) (valid : St -> bool) dist sat gdist (dflt : St) minDur starts ins, starts <> [] ->
+  let tree := fst (crrti_solve St C stepf valid dist sat gdist dflt minDur starts ins) in
+  TInv St (C * nat) (cEdge1 St C stepf valid) starts tree /\ (exists ext, tree = map (fun x => (x, None)) starts ++ ext) /\
+  match snd (crrti_solve St C stepf valid dist sat gdist dflt minDur starts ins) with
+  | Some (path, approx, dd) =>
+      path <> [] /\ (exists s0, hd (None, dflt) path = (None, s0) /\ In s0 starts) /\
+      pathOk St (C * nat) (cEdge1 St C stepf valid) path /\ dd = gdist (snd (last path (None, dflt))) /\
+      (exists i, (length starts <= i < length tree)%nat /\ snd (last path (None, dflt)) = state_at St (C * nat) dflt tree i) /\
+      (if approx then sat (snd (last path (None, dflt))) = false /\
+                      forall j, (length starts <= j < length tree)%nat -> (gdist (state_at St (C * nat) dflt tree j) <? dd)%Z = false
+       else sat (snd (last path (None, dflt))) = true)
+  | None => length tree = length starts
+  end.
+Proof. exact crrti_solve_spec. Qed.
 (* meaning of the admission rule applied to every observed run *)
 Theorem C02_admission_sound : forall r, cadjudicate r = CVok ->
   (c_is_solution (cr_status r) = true -> C02_solution r) /\ (c_is_solution (cr_status r) = false -> cr_paths_after r = cr_paths_before r).
@@ -65,6 +83,7 @@ Print Assumptions C02_propagateWhileValid_states_spec.
 Print Assumptions C02_tree_paths_replay.
 Print Assumptions C02_directed_sampler_result_replays.
 Print Assumptions C02_control_rrt_paths_replay.
+Print Assumptions C02_control_rrt_intermediate_states_paths_replay.
 Print Assumptions C02_admission_sound.
 
 Example C02_nonvacuous :
